@@ -77,6 +77,7 @@ func (n *nodeSt) rawUsage() plugintypes.NodeResource {
 }
 
 func classOf(err error) string {
+	vt.NoteErr(err)
 	switch {
 	case err == nil:
 		return "ok"
@@ -194,6 +195,7 @@ func (e *plugEnv) allocCase(in *allocIn) map[string]any {
 	ncore, nnuma := len(in.Cap), len(in.NumaMem)
 	ev := map[string]any{"ev": "AllocCase", "in": in}
 	if _, err := p.SetNodeResourceInfo(ctx, node, in.rawCapacity(), in.rawUsage()); err != nil {
+		vt.NoteErr(err)
 		return map[string]any{"ev": "BadInput", "in": in, "err": err.Error()}
 	}
 	req := reqOf(in)
@@ -280,6 +282,7 @@ func (e *plugEnv) capMulti(ins []*allocIn) map[string]any {
 		name := fmt.Sprintf("m%d", i)
 		x := *in
 		if _, err := p.SetNodeResourceInfo(ctx, name, x.rawCapacity(), x.rawUsage()); err != nil {
+			vt.NoteErr(err)
 			return map[string]any{"ev": "BadInput", "in": in, "err": err.Error()}
 		}
 		names = append(names, name)
@@ -408,7 +411,20 @@ func min64(a, b int64) int64 {
 	return b
 }
 
+// newHandler: the worker's request handler; a request during which the embedded etcd failed is answered "EnvFail"
 func newHandler(t *testing.T, kind string) func([]byte) map[string]any {
+	h := newHandler0(t, kind)
+	return func(raw []byte) map[string]any {
+		mark := vt.EnvMark()
+		ev := h(raw)
+		if vt.EnvFailedSince(mark) {
+			return map[string]any{"ev": "EnvFail"}
+		}
+		return ev
+	}
+}
+
+func newHandler0(t *testing.T, kind string) func([]byte) map[string]any {
 	e := &plugEnv{t: t, plugins: map[[2]int]*cpumem.Plugin{}}
 	switch kind {
 	case "alloc":
@@ -456,6 +472,10 @@ func TestCpuMemAlloc(t *testing.T) {
 				if fail != "" {
 					ev = map[string]any{"ev": "Crash", "kind": fail, "in": in, "msg": ""}
 				}
+				if ev["ev"] == "EnvFail" {
+					vt.NoteEnvDrop()
+					continue
+				}
 				if ev["ev"] == "Crash" {
 					atomic.AddInt64(&crashes, 1)
 				}
@@ -479,6 +499,10 @@ func TestCpuMemAlloc(t *testing.T) {
 						ev, fail := sup.run(t, map[string]any{"op": "multi", "ins": ins})
 						if fail != "" {
 							ev = map[string]any{"ev": "Crash", "kind": fail, "in": ins[0], "msg": "multi"}
+						}
+						if ev["ev"] == "EnvFail" {
+							vt.NoteEnvDrop()
+							continue
 						}
 						out.Emit(ev)
 					}
